@@ -194,3 +194,146 @@ def k_sixty_month_days(eng):
     r = run_kernel(eng, "13.g/B/sixty-month-days", "13.g", "every Jie day, next Jie day 28..33 days later; listing loop unrolled 35 times with the bound proved", build, None,
                    _replay("a sexagenary month does not list exactly the days from its Jie day to the day before the next"))
     return _finish(r, holder["ctx"]) if "ctx" in holder else r
+
+
+def _generic(eng, kid, clause, bound, owner, method, nargs, unroll, setup, expect, replay_what, scan="lists2_scan"):
+    """run owner::method with the callee models of `setup`; `expect(ctx, items, extra)` -> (shape error | None, [(name, smt)])"""
+    holder = {}
+
+    def build(eng):
+        fn = M.find_fn(eng.fns, method, "&" + owner, nargs)
+        ctx = _ctx(eng, {})
+        ctx.max_unroll = unroll
+        holder.update(ctx=ctx)
+        rec = Rec(ctx, "self", owner)
+        args, pre, extra, hook = setup(ctx, rec)
+        model = ctx.model
+        base = model.call
+
+        def call(c, fr, callee, a0, path):
+            a = [model.deref(c, x) for x in a0]
+            ok, v = hook(c, callee, a)
+            if ok:
+                return True, v
+            return base(c, fr, callee, a0, path)
+        model.call = call
+        paths = ctx.run(fn, [("refrec", rec)] + args)
+
+        def shape(p):
+            if getattr(p, "cut", False):
+                return None
+            if not isinstance(p.ret, VecV):
+                return "result is not the vector that was filled"
+            return expect(ctx, p.ret.items, extra)[0]
+
+        def posts(p):
+            if getattr(p, "cut", False):
+                return []
+            return expect(ctx, p.ret.items, extra)[1]
+        return ctx, paths, pre, posts, shape
+
+    def replay(eng, model):
+        nat = eng.native(scan)
+        if nat in ("NONE", "PANIC", "UNKNOWN", ""):
+            return nat == "PANIC", "native scan: " + (nat or "no output")
+        return True, replay_what + ": " + nat
+    r = run_kernel(eng, kid, clause, bound, build, None, replay)
+    return _finish(r, holder["ctx"]) if "ctx" in holder else r
+
+
+class _Day:
+    def __init__(self, t):
+        self.t = t
+
+
+def k_week_days(eng, lunar):
+    """the seven days of a week: its first day and the six days after it, in order"""
+    W, D = ("LunarWeek", "LunarDay") if lunar else ("SolarWeek", "SolarDay")
+
+    def setup(ctx, rec):
+        F = ctx.fresh_value("first_day", "isize")
+
+        def hook(c, callee, a):
+            if callee == W + "::get_first_day" and a[0] is rec:
+                return True, _Day(F)
+            if callee == "<%s as Tyme>::next" % D and isinstance(a[0], _Day) and isinstance(a[1], T):
+                return True, _Day(T("(+ %s %s)" % (a[0].t.s, a[1].s), "Int"))      # 01.g / 02.d
+            if callee == "<%s as Clone>::clone" % D and isinstance(a[0], _Day):
+                return True, a[0]
+            return False, None
+        return [], ["(<= 1721424 %s 5373484)" % F.s], F, hook
+
+    def expect(ctx, items, F):
+        if not all(isinstance(x, _Day) for x in items):
+            return "an element is not a day stepped from the week's first day", []
+        return None, [("length", "true" if len(items) == 7 else "false")] + [("day-%d" % k, "(= %s (+ %s %d))" % (x.t.s, F.s, k)) for k, x in enumerate(items[:7])]
+    return _generic(eng, "14.h/B/%s-week-days" % ("lunar" if lunar else "civil"), "14.h", "every week; listing loop unrolled (bound proved)", W, "get_days", 1, 9, setup, expect,
+                    "a week does not list its first day and the six days after it")
+
+
+def k_month_weeks(eng, lunar):
+    """the weeks of a month: index 0..week count - 1 of this very month with the chosen start weekday, in order"""
+    Mo, W = ("LunarMonth", "LunarWeek") if lunar else ("SolarMonth", "SolarWeek")
+    mget = "LunarMonth::get_month_with_leap" if lunar else "SolarMonth::get_month"
+
+    def setup(ctx, rec):
+        start = ctx.fresh_value("start", "usize")
+        count = ctx.fresh_value("week_count", "usize")
+        year = ctx.fresh_value("year", "isize")
+        month = ctx.fresh_value("month", "isize")
+        made = {}
+        if not lunar:
+            fields = struct_fields(os.path.join(REPO, "src/tyme/solar.rs"), "SolarMonth")
+            rec.fields[fields.index("month")] = month
+
+        def hook(c, callee, a):
+            if a and a[0] is rec:
+                if callee == Mo + "::get_week_count" and isinstance(a[1], T) and a[1].s == start.s:
+                    return True, count
+                if callee == Mo + "::get_year":
+                    return True, year
+                if callee == mget:
+                    return True, month
+            if callee == W + "::from_ym" and len(a) == 4 and all(isinstance(x, T) for x in a):
+                r = Rec(c, "week", W)
+                made[id(r)] = a
+                return True, r
+            return False, None
+        return [start], ["(<= 0 %s 6)" % start.s, "(<= 4 %s 6)" % count.s, "(<= (- 1) %s 9999)" % year.s, "(<= (- 12) %s 12)" % month.s], (start, count, year, month, made), hook
+
+    def expect(ctx, items, extra):
+        start, count, year, month, made = extra
+        if not all(id(x) in made for x in items):
+            return "an element is not built by %s::from_ym" % W, []
+        out = [("length", "(= %d %s)" % (len(items), count.s))]
+        for k, x in enumerate(items):
+            y, m, i, s = made[id(x)]
+            out.append(("week-%d" % k, "(and (= %s %s) (= %s %s) (= %s %d) (= %s %s))" % (y.s, year.s, m.s, month.s, i.s, k, s.s, start.s)))
+        return None, out
+    return _generic(eng, "14.i/B/%s-month-weeks" % ("lunar" if lunar else "civil"), "14.i", "every month, start weekday, week count 4..6; listing loop unrolled (bound proved)", Mo, "get_weeks", 2, 9,
+                    setup, expect, "a month does not list exactly its weeks")
+
+
+def k_sixty_year_months(eng):
+    """SixtyCycleYear::get_months: its first month and the 11 months after it, in order"""
+    class Mon:
+        def __init__(self, t):
+            self.t = t
+
+    def setup(ctx, rec):
+        def hook(c, callee, a):
+            if callee == "SixtyCycleYear::get_first_month" and a[0] is rec:
+                return True, Mon(I(0))
+            if callee == "<SixtyCycleMonth as Tyme>::next" and isinstance(a[0], Mon) and isinstance(a[1], T):
+                return True, Mon(T("(+ %s %s)" % (a[0].t.s, a[1].s), "Int"))      # 11.g
+            if callee == "<SixtyCycleMonth as Clone>::clone" and isinstance(a[0], Mon):
+                return True, a[0]
+            return False, None
+        return [], [], None, hook
+
+    def expect(ctx, items, extra):
+        if not all(isinstance(x, Mon) for x in items):
+            return "an element is not a month stepped from the year's first month", []
+        return None, [("length", "true" if len(items) == 12 else "false")] + [("month-%d" % k, "(= %s %d)" % (x.t.s, k)) for k, x in enumerate(items[:12])]
+    return _generic(eng, "13.h/B/sixty-year-months", "13.h", "every sexagenary year; listing loop unrolled (bound proved)", "SixtyCycleYear", "get_months", 1, 14, setup, expect,
+                    "a sexagenary year does not list its first month and the 11 after it")
